@@ -1284,6 +1284,10 @@ func pickIdlePieces(t *Torrent, count int) {
 		for _, p := range t.peers {
 			fast := p.GetFast()
 			for _, i := range fast {
+				if i >= uint32(maxp) {
+					// received before the metadata was known
+					continue
+				}
 				if !t.Pieces.Complete(i) && p.GetHave(i) {
 					if add(i) {
 						return
